@@ -465,6 +465,43 @@ def resolve_captures(P, g, tree, depth=3):
     return rec(tree)
 
 
+_PTR_WRAP = ('std::ptr::NonNull::as_ptr', 'std::ptr::NonNull::from', 'std::ptr::NonNull::new', 'std::ptr::NonNull::new_unchecked',
+             'std::option::Option::unwrap_unchecked', 'std::ptr::NonNull::cast', 'std::ptr::NonNull::as_ref', 'std::ptr::NonNull::as_mut',
+             '<std::ptr::NonNull as std::convert::From>::from')
+
+
+def ptr_norm(t):
+    """a nullable link written as `Option<NonNull<T>>` read like the raw pointer it stands for: NonNull::from/new/as_ptr,
+    unwrap_unchecked, `Some(p)` and `(l as Some).0` are transparent (used by the rules about the list's prev/next links only)"""
+    if not isinstance(t, tuple) or not t:
+        return t
+    while True:
+        t = peel(t)
+        if t[0] == 'call' and len(t[2]) == 1 and (t[1] in _PTR_WRAP or t[1].endswith('NonNull as std::convert::From>::from')):
+            t = t[2][0]; continue
+        if t[0] == 'agg' and str(t[1]).endswith('Option::Some') and len(t[2]) == 1:
+            t = t[2][0]; continue
+        if t[0] == 'field' and t[2] == '0' and peel(t[1])[0] == 'as' and peel(t[1])[2] == 'Some':
+            t = peel(t[1])[1]; continue
+        if t[0] == 'cast':
+            t = t[2]; continue
+        break
+    return tuple(ptr_norm(x) if isinstance(x, tuple) and x and isinstance(x[0], str) else (tuple(ptr_norm(y) for y in x) if isinstance(x, tuple) else x) for x in t)
+
+
+def link_null_truth(a):
+    """True/False if the atom states that a prev/next link is null / non-null — `p.is_null()`, or `link.is_none()` / `if let Some(..) = link`
+    for links kept as Option<NonNull<..>>; with the (normalised) link tree: (truth, tree), else None"""
+    if not a:
+        return None
+    if a[0] == 'bool' and a[1][0] == 'call' and a[1][1].endswith('::is_null') and a[1][2]:
+        return (a[2] is True, ptr_norm(a[1][2][0]))
+    st = option_state(a)
+    if st and any(x[0] == 'field' and x[2] in ('next', 'prev') for x in walk(st[1])):
+        return (st[0] == 'none', ptr_norm(st[1]))
+    return None
+
+
 def forced_some(P, tree):
     """if the value is the payload of an Option/Result obtained by an extraction that cannot continue on the empty case
     (`unwrap`, `expect`, `unwrap_or_else(|| <diverges>)`), the tree of that Option; else None.  `let Some(x) = o else { panic!() }`
